@@ -307,7 +307,19 @@ class MainLoop(Contract):
                 ('c10.rows.tracks', {'C10', 'C14'}, Implies(hdf_set, cnt(cx, 'rows_trk') == cnt(cx, 'rows_time'))),
                 ('c10.rows.wake', {'C10', 'C14'}, Implies(And(hdf_set, self.wkm_set(cx)), cnt(cx, 'rows_wake') == cnt(cx, 'rows_time'))),
                 ('c19.all_records_flushed', {'C19', 'C10'}, Implies(hdf_set, And(cnt(cx, 'rf_pending') == 0, cnt(cx, 'rows_rf') == cnt(cx, 'rf_applied')))),
-                ('c14.message', {'C14'}, z3.BoolVal(said is not None))]
+                ('c14.message', {'C14'}, z3.BoolVal(said is not None)),
+                # "report that it was aborted": the closing message is decided by a read of the flag that takes place AFTER the
+                # final record has been written (an interrupt arriving during the last step or the final save is still reported),
+                # and it says Aborted exactly if that read saw the flag set
+                ('c14.message_decided_after_final_record', {'C14'}, self.message_post(cx, said, hdf_set))]
+
+    def message_post(self, cx, said, hdf_set):
+        seen = cx.st.scal.get('ghost.abort_seen')
+        ph = cx.st.scal.get('ghost.abort_read_phase')
+        if said is None or seen is None or ph is None:
+            return z3.BoolVal(False)
+        return And(said.t == If(seen.t, I(1), I(0)), ph.t >= 1, Implies(hdf_set, ph.t == 2))
+
 
     @property
     def calls(self):
